@@ -22,6 +22,9 @@ def load(contracts=True):
     os.environ.setdefault("MPLBACKEND", "Agg")
     import warnings
     warnings.simplefilter("ignore")
+    import logging
+    logging.getLogger("matplotlib").setLevel(logging.ERROR)
+    logging.getLogger("matplotlib.font_manager").setLevel(logging.CRITICAL)
     import numpy as np
     np.seterr(all="ignore")
     import localcider
